@@ -209,6 +209,24 @@ def main():
         if vres[2]:
             undecided.append('%s: vacuity guard: `ensures false` is provable for %s (contradictory precondition or shim)' % (u, ', '.join(vres[2][:5])))
     # ---- Kani harnesses registered for this property
+    # thorough tier: proof-stability re-runs with other solver seeds and half the resource limit; an obligation that
+    # flips is reported as unstable (never as a violation)
+    stability = []
+    if tier == 'thorough':
+        def rerun(args):
+            u, sd = args
+            r = run_unit(u, REPO, rlimit=30, seed=sd, tag='_seed%d' % sd)
+            return u, sd, {o.name: o.ok for o in r.obls}, r.status
+        base_ok = {}
+        for (u, res, cens, vres) in outcomes:
+            base_ok[u] = {o.name: o.ok for o in res.obls}
+        jobs = [(u, seed + k) for u in units for k in (101, 202)]
+        with cf.ThreadPoolExecutor(max_workers=6) as pool:
+            for (u, sd, oks, st) in pool.map(rerun, jobs):
+                flips = [n for n, v in oks.items() if base_ok.get(u, {}).get(n) is True and v is not True]
+                stability.append({'unit': u, 'seed': sd, 'status': st, 'flipped': flips})
+                if flips:
+                    undecided.append('%s: unstable under solver seed %d: %s' % (u, sd, ', '.join(flips[:5])))
     kres = kani_future.result() if kani_future is not None else []
     for kr in kres:
         cmds.append(kr['cmd'])
@@ -266,6 +284,7 @@ def main():
         'trusted_base': sorted(trusted_base),
         'samples': samples,
         'imported_contracts': len(imported),
+        'stability_reruns': stability,
         'functions_under_contract': fn_rows,
         'obligations_by_function': {},
         'backends': tool_versions(),
